@@ -28,6 +28,16 @@ def record(ck, c, stream):
         ck.extra['status']['rejected'] += 1
         ck.count(c.s_src, False)
         return
+    if c.r_rc < 0 and c.r_rc != -9:
+        # nanoc killed by a signal while evaluating the shadow tests: no executable for a program whose assertions all hold
+        ck.extra['status']['crash'] += 1
+        ck.count(c.s_src, True)
+        rs = S.ref_segments(c)
+        if rs is not None and all(all(t) for _, t in rs):
+            ck.fail(key0, 'every shadow assertion holds (reference) but nanoc is killed by signal %d at compile time' % -c.r_rc, S.replay_dict(c))
+        elif c.m_interp['cls'] == 'done':
+            ck.fail(key0 + ':tie', 'correspondence broken: real nanoc killed by signal %d, model outcome done' % -c.r_rc, S.replay_dict(c), tie=True)
+        return
     if c.r_rc == -9:
         ck.extra['status']['hang'] += 1
         ck.count(c.s_src, True)
@@ -191,6 +201,13 @@ def run(ck):
     for c in fam:
         record(ck, c, 'gen')
     ck.extra['control_flag_family'] = dict(programs=len(fam), constructs=sum(len(c.flag_labels) for c in fam))
+    # deterministic family "operand evaluation" (shared with C03): every assertion holds, the gate must open
+    ofam = S.order_family(openk)
+    S.run_models(nv3, nvl, ofam)
+    S.run_real(b, ofam, 'c06o', want_native=False)
+    for c in ofam:
+        record(ck, c, 'gen')
+    ck.extra['operand_evaluation_family'] = dict(programs=len(ofam), constructs=sum(len(c.order_labels) for c in ofam))
     # 2. main stream: all placements of the failing assertion; some functions lose their shadow block
     cfg = S.stream_cfg(openk)
     n = 1200 if ck.thorough else 108
